@@ -18,7 +18,7 @@ Proof. exact ranges_eq_split_spec_rel. Qed.
 Theorem split_spec_functional :
   forall (A : Type) (cls : A -> class) (l : list A) (fs1 fs2 : list (list A)),
     SplitSpec cls l fs1 -> SplitSpec cls l fs2 -> fs1 = fs2.
-Proof. intros A cls l fs1 fs2 H1 H2. exact (Fields_fun cls _ _ H1 _ H2). Qed.
+Proof. exact @SplitSpec_fun. Qed.
 
 Theorem split_spec_fuel_sufficient :
   forall (A : Type) (cls : A -> class) (l : list A), exists fs, split_spec cls l = Some fs.
@@ -82,7 +82,7 @@ Proof. exact @glue_assoc_lemma. Qed.
 
 Theorem glue_unit :
   forall (A : Type) (a : list (list A)), glue [] a = a /\ glue a [] = a.
-Proof. intros A a. split; [exact (glue_nil_l_lemma a) | exact (glue_nil_r_lemma a)]. Qed.
+Proof. exact @glue_unit_lemma. Qed.
 
 Theorem glue_field_count :
   forall (A : Type) (a b : list (list A)),
@@ -178,6 +178,15 @@ Theorem expand_words_eq_spec :
     end.
 Proof. exact expand_words_refines_lemma. Qed.
 
+Theorem expand_word_single_eq_spec :
+  forall (w : word) (e : env),
+    match spec_word_single w e with
+    | SOk v e' => expand_word_single w e = Ok v e'
+    | SErr k => expand_word_single w e = Err k
+    | SUnspec => True
+    end.
+Proof. exact expand_word_single_refines_lemma. Qed.
+
 Theorem spec_defined_on_core :
   forall (is_ws : N -> bool) (w : word) (e : env),
     core_word w = true -> scalar_env e = true -> spec_word_fields is_ws w e <> SUnspec.
@@ -188,6 +197,22 @@ Theorem words_oracle_accepts_model :
     words_oracle is_ws cmds e (fst (run_cmds is_ws cmds e))
                  (option_map kind_code (snd (run_cmds is_ws cmds e))) = 0%N.
 Proof. exact words_oracle_sound_lemma. Qed.
+
+(* ---- trim and length modifiers ---------------------------------------------------------------- *)
+
+Theorem pmatch_eq_matches :
+  forall (p : list pchar) (s : str), pmatch p s = true <-> Matches p s.
+Proof. exact pmatch_iff. Qed.
+
+Theorem trim_value_spec :
+  forall (s : trim_side) (l : trim_length) (p : list pchar) (v : str),
+    TrimSpec s l p v (trim_value s l p v).
+Proof. exact trim_value_spec_lemma. Qed.
+
+Theorem decimal_correct :
+  forall n : N,
+    undecimal (decimal n) = n /\ forallb is_digit (decimal n) = true /\ decimal n <> [].
+Proof. exact decimal_correct_lemma. Qed.
 
 (* ---- assumptions ---- *)
 Print Assumptions ranges_eq_split_spec.
@@ -221,5 +246,9 @@ Print Assumptions read_no_panic.
 Print Assumptions read_oracle_accepts_model.
 Print Assumptions expand_model_eq_spec.
 Print Assumptions expand_words_eq_spec.
+Print Assumptions expand_word_single_eq_spec.
 Print Assumptions spec_defined_on_core.
 Print Assumptions words_oracle_accepts_model.
+Print Assumptions pmatch_eq_matches.
+Print Assumptions trim_value_spec.
+Print Assumptions decimal_correct.
